@@ -402,6 +402,7 @@ class Case:
     as_condition: bool = False                        # the value is used as a row condition: only "is TRUE" matters
     # filled by `prepare`
     queries: List[Tuple[str, List[Any], Optional[Outcome]]] = field(default_factory=list)   # (kind, asserts, outcome)
+    cover: Optional[List[Any]] = None
     fault: str = ""
 
     def env(self, svs: Sequence[SV]) -> Dict[str, SV]:
@@ -466,6 +467,7 @@ class Prover:
             c.fault = f"{type(e).__name__}: {e}"
             return
         pre = [p for o in c.operands for p in o.pre] + list(c.pre) + [Not(spec.unspec)]
+        c.cover = pre                      # vacuity guard: the precondition of the case must be satisfiable
         for o in outs:
             base = pre + list(o.pc)
             out = o.out()
@@ -486,10 +488,11 @@ class Prover:
             return c.grid
         pools = [pool_for(o) for o in c.operands]
         prod = list(itertools.product(*pools))
-        if len(prod) > GRID_CAP:
-            keep = [t for t in prod if sum(v is None for v in t) >= len(t) - 1 and len(t) > 1][:8]
+        cap = 10 if sum(o.kind == "Time_Period" for o in c.operands) > 1 else GRID_CAP
+        if len(prod) > cap:
+            keep = [t for t in prod if sum(v is None for v in t) >= len(t) - 1 and len(t) > 1][:6]
             rest = [t for t in prod if t not in keep]
-            prod = keep + self.rng.sample(rest, GRID_CAP - len(keep))
+            prod = keep + self.rng.sample(rest, cap - len(keep))
         return prod
 
     def conformance(self, c: Case) -> Optional[str]:
@@ -515,6 +518,8 @@ class Prover:
                 continue
             r = c.run_native(tup)
             self.native_n += 1
+            if r[0] == "norow":
+                continue
             ro = native_sv(r, eng, m.value.sort == "atom" or (m.value.sort == "null" and c.want_atom))
             if bool(m.err()) != bool(ro.err()):
                 return f"{c.sql} on {tup}: model {'error ' + m.err_text() if m.err() else show(m.value)} / DuckDB {r}"
@@ -535,6 +540,8 @@ class Prover:
         vals = [o.decode(model) for o in c.operands]
         r = c.run_native(vals)
         self.native_n += 1
+        if r[0] == "norow":
+            return False, "the real statement produced no row for the counter-model's input rows", None
         svs = [o.concrete(v) for o, v in zip(c.operands, vals)]
         spec = c.spec_fn(svs)
         wit = {"template": c.sql, "operands": {o.name: (o.kind, show_py(v)) for o, v in zip(c.operands, vals)},
@@ -546,8 +553,10 @@ class Prover:
         g = goal(ro, spec, tol=True)
         if is_sym(g):
             return None, "replay left symbolic terms", wit
-        detail = (f"SELECT {c.sql} with {wit['operands']} -> DuckDB {r[0]} {show_py(r[1])!r}; "
-                  f"VTL: {show_spec(spec)}")
+        what = f"statement [{c.sql}] on one-row tables" if c.native_fn is not None else f"SELECT {c.sql}"
+        if c.as_condition:
+            what += " (does the input row / row pair produce an output row?)"
+        detail = f"{what} with {wit['operands']} -> DuckDB {r[0]} {show_py(r[1])!r}; VTL: {show_spec(spec)}"
         return (not g), detail, wit
 
 
@@ -579,7 +588,7 @@ def show_spec(s: Spec) -> str:
     return "(no claim)"
 
 
-GRID_CAP = 28
+GRID_CAP = 22
 POOLS: Dict[str, List[Any]] = {
     "Integer": [None, 0, 1, -3, 7, 10],
     "Number": [None, Fraction(0), Fraction(3, 2), Fraction(-9, 4), Fraction(4), Fraction(1)],
@@ -636,6 +645,21 @@ def z3_batch(decls: smt.Decls, assert_lists: Sequence[Sequence[Any]], timeout: f
 BATCH = 80
 
 
+def nice_constraints(c: Case) -> List[Any]:
+    out: List[Any] = []
+    for o in c.operands:
+        v = o.sv
+        if v.sort == "int" and is_sym(v.v) and o.kind == "Integer":
+            out += [Not(Eq(v.v, 0)), Ge(v.v, -20), Le(v.v, 20)]
+        elif v.sort == "num" and is_sym(v.v):
+            out += [Not(REq(v.v, 0)), RLe(-20, v.v), RLe(v.v, 20)]
+        elif v.sort == "str":
+            for ch in v.v.chars:
+                if is_sym(ch) and not ch.sx.startswith("("):
+                    out += [Ge(ch, 97), Le(ch, 122)]
+    return out
+
+
 def discharge_all(pv: Prover) -> None:  # noqa: C901
     chk, eng = pv.chk, pv.eng
     timeout = float(os.environ.get("VERIF_TIMEOUT", 20))
@@ -649,11 +673,23 @@ def discharge_all(pv: Prover) -> None:  # noqa: C901
     prep_s = time.time() - t0
     lists = [pv.groups[gi].cases[ci].queries[qi][1] for gi, ci, qi in flat]
     pv.queries_n = len(lists)
+    covers = [(gi, ci) for gi, g in enumerate(pv.groups) for ci, c in enumerate(g.cases) if c.cover is not None and
+              any(is_sym(a) for a in c.cover)]
+    cover_lists = [pv.groups[gi].cases[ci].cover for gi, ci in covers]
     chunks = [lists[i:i + BATCH] for i in range(0, len(lists), BATCH)]
+    cchunks = [cover_lists[i:i + BATCH] for i in range(0, len(cover_lists), BATCH)]
     t1 = time.time()
-    answers = pmap(lambda al: z3_batch(eng.decls, al, timeout), chunks, jobs=min(8, core.NCPU))
-    status = [s for ans in answers for s in ans]
+    answers = pmap(lambda al: z3_batch(eng.decls, al, timeout), chunks + cchunks, jobs=min(8, core.NCPU))
+    status = [s for ans in answers[:len(chunks)] for s in ans]
+    cstatus = [s for ans in answers[len(chunks):] for s in ans]
     solve_s = time.time() - t1
+    vacuous: Dict[int, str] = {}
+    for (gi, ci), s in zip(covers, cstatus):
+        if s != "sat":
+            c = pv.groups[gi].cases[ci]
+            r = run_smt(smt.query(eng.decls, c.cover), timeout=timeout, tag="c01cover")
+            if r.status != "sat":
+                vacuous[gi] = f"case [{c.label}]: precondition {r.status} (vacuity guard)"
     by_q = {k: s for k, s in zip(flat, status)}
     per = solve_s / max(1, len(lists))
     # grid conformance of every template (model vs DuckDB), once per distinct (template, operand signature)
@@ -663,7 +699,7 @@ def discharge_all(pv: Prover) -> None:  # noqa: C901
         for c in g.cases:
             if c.fault:
                 continue
-            k = c.sql + "|" + ",".join(f"{o.kind}:{o.reading}:{o.length}:{o.ind}:{o.null}" for o in c.operands) + c.str_mode
+            k = c.sql + "|" + (c.label if c.native_fn is not None else "") + "|" + ",".join(f"{o.kind}:{o.reading}:{o.length}:{o.ind}:{o.null}" for o in c.operands) + c.str_mode
             if k not in seen:
                 seen[k] = pv.conformance(c)
                 if seen[k]:
@@ -680,6 +716,9 @@ def discharge_all(pv: Prover) -> None:  # noqa: C901
             continue
         if not g.cases:
             ob.status, ob.detail = UNDECIDED, "no case generated"
+            continue
+        if gi in vacuous:
+            ob.status, ob.detail = UNDECIDED, vacuous[gi]
             continue
         decided = True
         for ci, c in enumerate(g.cases):
@@ -701,6 +740,12 @@ def discharge_all(pv: Prover) -> None:  # noqa: C901
                     ob.status = UNDECIDED
                     ob.detail = f"case [{c.label}]: the template leaves the SQL model for admissible operands ({why})"
                     break
+                # a readable witness when there is one: small non-zero numbers, lower-case letters
+                nice = nice_constraints(c)
+                if nice:
+                    r2 = run_smt(smt.query(eng.decls, asserts + nice, get=c.vars()), timeout=min(timeout, 5), tag="c01nice")
+                    if r2.status == "sat":
+                        r = r2
                 ob.status = REFUTED
                 ob.detail = f"case [{c.label}] template {c.sql} counter-model {dict(list(r.model.items())[:12])}"
                 ob.finding_key = g.key
@@ -714,7 +759,7 @@ def discharge_all(pv: Prover) -> None:  # noqa: C901
             ob.detail = f"{len(g.cases)} case(s), {nq} solver queries, all unsat; templates: " + \
                         " | ".join(sorted({c.sql for c in g.cases}))[:300]
     chk.extra["proof_tier"] = {
-        "solver_queries": len(lists), "prepare_s": round(prep_s, 2), "solve_s": round(solve_s, 2), "grid_s": round(grid_s, 2),
+        "solver_queries": len(lists), "cover_queries_precondition_satisfiable": len(cover_lists), "prepare_s": round(prep_s, 2), "solve_s": round(solve_s, 2), "grid_s": round(grid_s, 2),
         "grid_model_vs_duckdb_evaluations": pv.grid_n, "grid_model_declined": pv.grid_declined,
         "native_duckdb_executions": pv.native_n, "templates": len(seen), "spec_vs_vtlref_comparisons": pv.vtlref_n,
     }
